@@ -217,6 +217,7 @@ func init() {
 				c.Count("rejected_option_sets_compiled_40x", 1)
 				c.Distinct(fmt.Sprintf("badopts|%d|%s", idx, first))
 			}},
+			{Name: "constexpr-results", Serial: true, N: func(string) uint64 { return 1 }, Run: c09ConstExprResults},
 			{Name: "purity", N: func(tier string) uint64 {
 				if tier == "thorough" {
 					return 900000
@@ -443,4 +444,96 @@ func firstDiff(a, b string) string {
 		hb = len(b)
 	}
 	return fmt.Sprintf("at byte %d: …%s… vs …%s…", i, a[lo:ha], b[lo:hb])
+}
+
+// c09ConstEnv: functions named in ConstExpr whose results are sequences and
+// maps of several types, and functions that change their argument in place.
+type c09ConstEnv struct {
+	TblF func() []float64
+	TblI func() []int
+	TblS func() []string
+	TblA func() []interface{}
+	TblM func() map[string]int
+	RevF func([]float64) []float64
+	RevI func([]int) []int
+	RevS func([]string) []string
+	RevA func([]interface{}) []interface{}
+	SetM func(map[string]int) int
+}
+
+func newC09ConstEnv() c09ConstEnv {
+	return c09ConstEnv{
+		TblF: func() []float64 { return []float64{1, 2, 3} },
+		TblI: func() []int { return []int{1, 2, 3} },
+		TblS: func() []string { return []string{"a", "b", "c"} },
+		TblA: func() []interface{} { return []interface{}{1, "b", 3.5} },
+		TblM: func() map[string]int { return map[string]int{"a": 1} },
+		RevF: func(x []float64) []float64 {
+			for i, j := 0, len(x)-1; i < j; i, j = i+1, j-1 {
+				x[i], x[j] = x[j], x[i]
+			}
+			return x
+		},
+		RevI: func(x []int) []int {
+			for i, j := 0, len(x)-1; i < j; i, j = i+1, j-1 {
+				x[i], x[j] = x[j], x[i]
+			}
+			return x
+		},
+		RevS: func(x []string) []string {
+			for i, j := 0, len(x)-1; i < j; i, j = i+1, j-1 {
+				x[i], x[j] = x[j], x[i]
+			}
+			return x
+		},
+		RevA: func(x []interface{}) []interface{} {
+			for i, j := 0, len(x)-1; i < j; i, j = i+1, j-1 {
+				x[i], x[j] = x[j], x[i]
+			}
+			return x
+		},
+		SetM: func(m map[string]int) int { m["a"]++; return m["a"] },
+	}
+}
+
+// c09ConstExprResults: the result of a ConstExpr function becomes a constant
+// of the program; a function that changes its argument in place must not
+// reach that constant.
+func c09ConstExprResults(c *runner.Ctx, idx uint64) {
+	cases := []struct{ src, fn, class string }{
+		{"RevI(TblI())[0]", "TblI", "[]int"}, {"RevS(TblS())[0]", "TblS", "[]string"}, {"RevA(TblA())[0]", "TblA", "[]interface{}"},
+		{"RevF(TblF())[0]", "TblF", "[]float64"}, {"SetM(TblM())", "TblM", "map"},
+		{"len(RevI(TblI())) + RevI(TblI())[0]", "TblI", "[]int"}, {"map(1..3, {RevF(TblF())[0]})", "TblF", "[]float64"},
+	}
+	for _, k := range cases {
+		for oi, on := range []string{"optimize", "no-optimize"} {
+			env := newC09ConstEnv()
+			opts := []expr.Option{expr.Env(env), expr.ConstExpr(k.fn)}
+			if oi == 1 {
+				opts = append(opts, expr.Optimize(false))
+			}
+			c.Begin(k.src)
+			p, co := SafeCompile(k.src, opts...)
+			c.Eval(1)
+			if co.Failed() || p == nil {
+				c.Count("constexpr_result_cases_rejected", 1)
+				continue
+			}
+			before := mon.ProgramDigest(p)
+			var outs []string
+			for i := 0; i < 3; i++ {
+				outs = append(outs, c08Outcome(SafeRun(p, env)))
+				c.Eval(1)
+			}
+			c.Count("constexpr_result_cases", 1)
+			c.Distinct("constexpr|" + k.src + "|" + on)
+			after := mon.ProgramDigest(p)
+			cas := map[string]interface{}{"source": k.src, "const_expr": k.fn, "options": on, "results_of_3_runs": outs}
+			if after != before {
+				c.Violate("program-modified:constexpr-result:"+k.src, "a run modified the program: the "+k.class+" returned by the ConstExpr function "+k.fn+" is handed to the environment function as it is; "+firstDiff(before, after), cas)
+			} else if outs[0] != outs[1] || outs[1] != outs[2] {
+				c.Violate("runs-differ:constexpr-result:"+k.src, fmt.Sprintf("three runs on equal environments returned %v", outs), cas)
+			}
+		}
+	}
 }
